@@ -16,6 +16,9 @@ pub mod c19;
 pub mod c12;
 pub mod c14;
 pub mod c18;
+pub mod c03;
+pub mod c11;
+pub mod c07;
 
 /// All harness bodies, for the native replayer.
 pub fn registry() -> Vec<(&'static str, fn())> {
@@ -29,5 +32,8 @@ pub fn registry() -> Vec<(&'static str, fn())> {
     v.extend_from_slice(c12::HARNESSES);
     v.extend_from_slice(c14::HARNESSES);
     v.extend_from_slice(c18::HARNESSES);
+    v.extend_from_slice(c03::HARNESSES);
+    v.extend_from_slice(c11::HARNESSES);
+    v.extend_from_slice(c07::HARNESSES);
     v
 }
